@@ -226,7 +226,8 @@ impl Harness for Mst {
                         return;
                     }
                     let alts: Vec<String> = (0..t.m())
-                        .filter(|&e| t.edges[e] == (*a, *b) || t.edges[e] == (*b, *a))
+                        // on directed storage the element must name the edge as it is stored (source -> target)
+                        .filter(|&e| t.edges[e] == (*a, *b) || (!matches!(self.host, Host::GraphDi | Host::StableDi) && t.edges[e] == (*b, *a)))
                         .map(|e| format!("(= {} {})", wt.t(), self.wterm(&conc, e)))
                         .collect();
                     if alts.is_empty() {
